@@ -55,7 +55,7 @@ var (
 
 func amtBytes(a int64, output bool) []byte {
 	b := new(big.Int).Mul(big.NewInt(a), amtScale).Bytes()
-	if output && amtLeadZero && len(b) > 0 {
+	if output && amtLeadZero { // a zero amount is spelled 0x00 instead of the empty string
 		return append([]byte{0}, b...)
 	}
 	return b
